@@ -1,5 +1,6 @@
 import AlatorVerif.Lemmas.UistProps
 import AlatorVerif.Lemmas.JuraDead
+import AlatorVerif.Lemmas.SmallSort
 /-!
 # C17 — sells before buys: batch ordering and time priority (both exchanges)
 
@@ -27,6 +28,29 @@ theorem stable_partition_ok {β : Type} (isSell : β → Bool) (batch : List β)
         have := (List.mem_filter.mp hb).2; simp at this; simp [this]) (List.pairwise_of_forall (fun _ _ => trivial))
   · intro a ha b hb
     simp [(List.mem_filter.mp ha).2]
+
+/-- **the hypothesis discharged for the library's small-slice algorithm**: the insertion sort that
+    `slice::sort_by` runs on slices of at most 20 elements (`Lemmas/SmallSort.lean`, modelled for an arbitrary
+    `is_less`), under the one-sided comparator of `sort_order_buffer`, returns a sell-first permutation of the
+    batch — namely the sells, last arrived first, followed by the buys in order of arrival. Larger slices go
+    through driftsort, for which the hypothesis stays an assumption checked on every batch -/
+theorem small_slice_sort_is_sell_first {β : Type} (isSell : β → Bool) (batch : List β) :
+    SellFirstPerm isSell batch (SmallSort.insertionSort (SmallSort.oneSided isSell) batch)
+    ∧ SmallSort.insertionSort (SmallSort.oneSided isSell) batch
+        = (batch.filter isSell).reverse ++ batch.filter (fun x => !isSell x) := by
+  refine ⟨?_, SmallSort.insertionSort_oneSided isSell batch⟩
+  rw [SmallSort.insertionSort_oneSided]
+  refine ⟨((List.reverse_perm _).append_right _).trans (List.filter_append_perm isSell batch), ?_⟩
+  rw [List.pairwise_append]
+  refine ⟨?_, ?_, ?_⟩
+  · exact List.Pairwise.imp_of_mem (R := fun _ _ => True)
+      (fun {a b} ha _ _ => by simp [(List.mem_filter.mp (List.mem_reverse.mp ha)).2])
+      (List.pairwise_of_forall (fun _ _ => trivial))
+  · exact List.Pairwise.imp_of_mem (R := fun _ _ => True)
+      (fun {a b} _ hb _ => by
+        have := (List.mem_filter.mp hb).2; simp at this; simp [this]) (List.pairwise_of_forall (fun _ _ => trivial))
+  · intro a ha b hb
+    simp [(List.mem_filter.mp (List.mem_reverse.mp ha)).2]
 
 /-- in a sell-first arrangement every sell stands before every buy -/
 theorem sell_index_lt_buy_index {β : Type} (isSell : β → Bool) (adm : List β)
